@@ -23,12 +23,20 @@ ID = "C08"
 PROPS = "Props/C08.v"
 EXTRACT = "extract/ExC08.v"
 OBLIGATION = "swhid-roundtrip"
-THEOREMS = ["C08_core_roundtrip", "C08_ext_roundtrip", "C08_qualified_roundtrip", "C08_grammar", "C08_grammar_shape", "C08_conversions", "C08_huge_line_refuted", "C08_tables", "C08_satisfiable"]
+THEOREMS = ["C08_core_roundtrip", "C08_ext_roundtrip", "C08_qualified_roundtrip", "C08_grammar", "C08_grammar_shape", "C08_conversions", "C08_explicit_namespace_version", "C08_huge_line_refuted", "C08_tables", "C08_satisfiable"]
 RULE = ("all 5/7 object types x random 20-byte ids x all 32 qualifier subsets x adversarial origins "
         "(';' '%' '%3B' '%25' '=' '%zz', non-ASCII, astral, lone surrogates, empty, random over a hostile alphabet) x "
         "paths (every single byte value, random bytes, empty, '/'-heavy) x line numbers/ranges (0, equal, reversed, "
-        "50-digit, exactly limit digits); plus invalid constructor arguments; every qualified value is printed again (itself, "
-        "a twin, a fresh parse) after a caller emptied and polluted the dict returned by qualifiers(); non-trivial = a qualified value with at "
+        "50-digit, exactly limit digits, 2^31 / 2^32 / 2^63 / 2^64 and 10^10 boundaries, end line 0); plus invalid constructor arguments; every qualified value is printed again (itself, "
+        "a twin, a fresh parse) after a caller emptied and polluted the dict returned by qualifiers(); argument shapes: object_type as "
+        "str / str subclass / member of the class's enum / member of the OTHER enum, namespace= and scheme_version= left out or given "
+        "explicitly (the defaults, and wrong ones: other case, empty, trailing blank, 0, 2, -1, 10^20), bytes / str subclasses for "
+        "object_id, path, origin; the same id (and ids one byte apart) shared by the value, its visit and its anchor and by consecutive "
+        "values of all 7 types (module-level lru_cache of hash_to_hex / hash_to_bytes); every single origin character 0..255 plus "
+        "look-alikes of ';' '%', zero-width and non-characters, surrogates, plane ends; origins / paths of 3000-6000 characters; "
+        "ill-typed constructor arguments (str / bytearray / memoryview ids, bytes origin, list / 1- / 3-tuple / float / str-pair "
+        "lines, Extended / Qualified objects as visit / anchor, unknown and positional arguments): no model for those, the "
+        "property is evaluated on whatever the constructor returns; non-trivial = a qualified value with at "
         "least one qualifier whose text needs an escape; distinct = distinct case")
 TRUSTED = ["stdlib behaviour as modelled in coq/lib/Utf8.v, coq/lib/Percent.v, coq/model/Swhid.v: re.fullmatch of "
            "SWHID_RE (\\S = complement of str.isspace, table cross-checked each run in C09), str.split/replace/join, "
@@ -36,7 +44,9 @@ TRUSTED = ["stdlib behaviour as modelled in coq/lib/Utf8.v, coq/lib/Percent.v, c
            "interpreter's digit limit, bytes.fromhex/hexlify, attrs converters+validators order"]
 ASSUMPTIONS = ["20-byte ids; visit/anchor are valid CoreSWHID objects; line numbers >= 0 with at most "
                "sys.get_int_max_str_digits() digits (beyond: known finding int-max-str-digits)",
-               "origins containing whitespace are outside C08's stated domain: generated, but only tied in C09"]
+               "origins containing whitespace are outside C08's stated domain: generated, but only tied in C09",
+               "line numbers and scheme_version are ints proper: bool (an int subclass: lines=(True, None) prints ';lines=True', "
+               "scheme_version=True prints 'swh:True:') and a float version equal to 1 are not generated (reported, not tested)"]
 
 CORE_TYPES = ["snp", "rel", "rev", "dir", "cnt"]
 EXT_TYPES = CORE_TYPES + ["ori", "emd"]
@@ -256,6 +266,9 @@ def gen(rng, tier):
     for ln in (["0", None], ["0", "0"], ["10", "5"], ["10^50", None], ["7", "10^50-1"],
                ["10^%d-1" % LIM, None], ["3", "10^%d-1" % LIM],        # exactly LIM digits: still printable
                ["10^%d" % LIM, None], ["1", "10^%d" % LIM],            # LIM+1 digits: known finding
+               ["7", "0"], ["0", "7"], ["1", "1"], ["9999999999", "10000000000"],                 # falsy end; 10 / 11 digits
+               ["2147483647", "2147483648"], ["4294967295", "4294967296"],                       # machine-word boundaries
+               ["9223372036854775807", "9223372036854775808"], ["18446744073709551615", "18446744073709551616"],
                ["-1", None], ["-3", "-1"], ["1", "-2"]):               # negative: outside the domain
         cases.append(q_case(rng, "cnt", 16, lines=ln))
         cases.append(q_case(rng, "dir", 31, lines=ln))
@@ -269,7 +282,109 @@ def gen(rng, tier):
     n = 2500 if tier == "quick" else 150000
     for i in range(n):
         cases.append(q_case(rng, CORE_TYPES[i % 5], rng.randrange(32) if i % 3 else 31))
+    cases += shapes(rng, tier)
     return cases
+
+
+# ---------------------------------------------------------------- argument shapes, shared ids, long values, ill-typed arguments
+NSVER = [("swh", "1"), ("swh", None), (None, "1"),                                        # the defaults, spelled out
+         ("SWH", None), ("", None), ("swh ", None), (" swh", None), ("swh:1", None), ("sw", None), ("swhh", None),
+         ("ＳＷＨ", None), (None, "0"), (None, "2"), (None, "-1"), (None, "10"), (None, "11"), (None, "10^20"),
+         ("swh", "2"), ("foo", "1"), ("foo", "2")]
+ORIGIN_CPS = [0x100, 0x17F, 0x300, 0x37E, 0x387, 0x61B, 0x204F, 0xFE54, 0xFE6A, 0xFF05, 0xFF1B, 0x66A, 0x200B, 0x200C, 0x200D,
+              0x2060, 0xFEFF, 0xFFFD, 0xFFFE, 0xFFFF, 0xD7FF, 0xD800, 0xDBFF, 0xDC00, 0xDFFF, 0xE000, 0x10000, 0x1F600, 0x1FFFF,
+              0xE0001, 0x10FFFF]
+ILL = [(k, w) for k in ("core", "ext", "q")
+       for w in ("oid-str20", "oid-str40", "oid-bytearray", "oid-memoryview", "oid-none", "oid-list", "oid-int", "ty-int", "ty-none",
+                 "ty-bytes", "unknown-kw", "positional")]
+ILL += [("core", "origin-kw"), ("ext", "origin-kw"), ("ext", "lines-kw")]
+ILL += [("q", w) for w in ("origin-bytes", "origin-int", "origin-list", "path-int", "path-memoryview", "path-bytearray",
+                           "path-bytearray-pct", "path-list", "lines-list", "lines-1tuple", "lines-3tuple", "lines-empty-tuple",
+                           "lines-int", "lines-float", "lines-strs", "lines-none-first", "lines-bytes", "lines-nested",
+                           "visit-ext", "visit-q", "visit-bytes", "visit-int", "anchor-q", "anchor-ext", "anchor-bytes",
+                           "anchor-tuple")]
+
+
+def near(rng, oid):
+    """an id one byte (one bit, half of the time) away"""
+    b = bytearray.fromhex(oid)
+    i = rng.choice([0, 1, 9, 18, 19, rng.randrange(20)])
+    b[i] ^= (1 << rng.randrange(8)) if rng.random() < 0.5 else rng.randrange(1, 256)
+    return bytes(b).hex()
+
+
+def shapes(rng, tier):
+    out = []
+    thorough = tier == "thorough"
+    # object_type: member of the class's enum, str subclass, member of the other enum
+    for cls, types in (("core", CORE_TYPES), ("ext", EXT_TYPES), ("q", CORE_TYPES)):
+        for ty in types:
+            for how in ("enum", "strsub", "foreign"):
+                if how == "foreign" and ty not in CORE_TYPES:
+                    continue                                     # ObjectType has no such member
+                c = q_case(rng, ty, rng.choice([0, 31, rng.randrange(32)])) if cls == "q" else {"k": cls, "ty": ty, "oid": rand_oid(rng)}
+                c["ty_as"] = how
+                out.append(c)
+    for ty in ("ori", "emd"):                                    # extended-only members handed to the core classes
+        out.append({"k": "core", "ty": ty, "oid": rand_oid(rng), "ty_as": "foreign"})
+        c = q_case(rng, ty, 31)
+        c["ty_as"] = "foreign"
+        out.append(c)
+    # namespace / scheme_version left out or given explicitly
+    for ns, ver in NSVER:
+        for cls in ("core", "ext", "q"):
+            c = q_case(rng, rng.choice(CORE_TYPES), rng.choice([0, 31])) if cls == "q" else {"k": cls, "ty": rng.choice(CORE_TYPES),
+                                                                                             "oid": rand_oid(rng)}
+            if ns is not None:
+                c["ns"] = ns
+            if ver is not None:
+                c["ver"] = ver
+            out.append(c)
+    bad = {"k": "core", "ty": "xyz", "oid": "00" * 20, "ns": "foo"}           # converter error comes before the validators
+    out += [bad, dict(bad, k="ext"), dict(bad, ty="cnt", oid="00" * 19), dict(q_case(rng, "xyz", 31), ns="foo", ver="2")]
+    # bytes / str subclasses
+    for i in range(40 if thorough else 12):
+        c = q_case(rng, CORE_TYPES[i % 5], 31 if i % 2 else rng.randrange(32))
+        c["sub"] = True
+        if i % 2:                                                # values a str-route converter would rewrite
+            c["path"] = (b"/a%41;%zz%\xff" + bytes([rng.randrange(256)])).hex()
+            c["origin"] = cps("a%41;b%3B%zz+" + chr(rng.choice(ALPHA)))
+        if i % 4 == 0:
+            c["ns"], c["ver"] = "swh", "1"
+        out.append(c)
+        out.append({"k": ("core", "ext")[i % 2], "ty": CORE_TYPES[i % 5], "oid": rand_oid(rng), "sub": True})
+    # one id for everything / ids one byte apart (hash_to_hex and hash_to_bytes are memoised per process)
+    for i in range(400 if thorough else 30):
+        oid = rand_oid(rng)
+        for ty in rng.sample(EXT_TYPES, 7):
+            out.append({"k": "ext", "ty": ty, "oid": oid})
+            if ty in CORE_TYPES:
+                out.append({"k": "core", "ty": ty, "oid": oid if rng.random() < 0.5 else near(rng, oid)})
+        for mask in (6, 31, 14):
+            c = q_case(rng, rng.choice(CORE_TYPES), mask)
+            c["oid"] = oid
+            c["visit"][1] = rng.choice([oid, near(rng, oid)])
+            c["anchor"][1] = rng.choice([oid, near(rng, oid), c["visit"][1]])
+            c["anchor"][0] = rng.choice(["snp", "dir", "rev", "rel"])
+            out.append(c)
+    # every single origin character
+    cps_ = [x for x in list(range(256)) + ORIGIN_CPS + ([rng.randrange(0x110000) for _ in range(3000)] if thorough else [])
+            if x not in WS]
+    for x in cps_:
+        out.append(q_case(rng, rng.choice(CORE_TYPES), 1, origin=[x]))
+        out.append(q_case(rng, rng.choice(CORE_TYPES), rng.choice([1, 9, 31]), origin=[97, x, 37, 51, 66, x]))
+    # long values
+    for n in ((3000, 6000) if not thorough else (3000, 6000, 20000, 60000)):
+        o = [rng.choice(ALPHA + [0x2F, 0x61, 0x2B]) for _ in range(n)]
+        pth = bytes(rng.randrange(256) for _ in range(n)).hex()
+        out.append(q_case(rng, "cnt", 1, origin=o))
+        out.append(q_case(rng, "dir", 8, path=pth))
+        out.append(q_case(rng, "rev", 31, origin=o[:n // 2], path=pth[:n]))
+        out.append(q_case(rng, "rel", 8, path=(b";%" * (n // 2)).hex()))
+    # ill-typed arguments
+    for cls, what in ILL:
+        out.append({"k": "ill", "cls": cls, "what": what, "oid": rand_oid(rng)})
+    return out
 
 
 # ---------------------------------------------------------------- classification
@@ -307,10 +422,32 @@ def nontrivial(c):
     return _needs_escape(c)
 
 
+def nv_given(c):
+    return "ns" in c or "ver" in c
+
+
+def shape_keys(c):
+    ks = []
+    if c.get("ty_as", "str") != "str":
+        ks.append("object_type-as-" + c["ty_as"])
+    if nv_given(c):
+        ks.append("namespace/version-explicit-" + ("default" if c.get("ns", "swh") == "swh" and c.get("ver", "1") == "1" else "other"))
+    if c.get("sub"):
+        ks.append("bytes/str-subclass-arguments")
+    return ks
+
+
 def classify(c):
+    if c["k"] == "ill":
+        return ["ill-typed-argument"]
     if c["k"] != "q":
-        return ["class=" + c["k"]]
-    ks = ["class=q", "qualifiers=%d" % sum(1 for k in ("origin", "visit", "anchor", "path", "lines") if c[k] is not None)]
+        return ["class=" + c["k"]] + shape_keys(c)
+    ks = ["class=q", "qualifiers=%d" % sum(1 for k in ("origin", "visit", "anchor", "path", "lines") if c[k] is not None)] + shape_keys(c)
+    ids = [c["oid"]] + [c[k][1] for k in ("visit", "anchor") if c[k] is not None]
+    if len(ids) > 1 and len(set(ids)) < len(ids):
+        ks.append("same-id-in-value-and-visit/anchor")
+    if (c["origin"] and len(c["origin"]) >= 1000) or (c["path"] and len(c["path"]) >= 2000):
+        ks.append("long-origin/path")
     if _needs_escape(c):
         ks.append("needs-escape")
     if c["origin"] is not None:
@@ -333,21 +470,100 @@ def classify(c):
 
 
 # ---------------------------------------------------------------- implementation
+class _B(bytes):
+    pass
+
+
+class _S(str):
+    pass
+
+
+def _ty_arg(c):
+    """object_type as the caller spells it: the value (str), a str subclass, a member of the class's enum or of the other one"""
+    from swh.model.swhids import ObjectType, ExtendedObjectType
+    how = c.get("ty_as", "str")
+    if how == "enum":
+        return (ExtendedObjectType if c["k"] == "ext" else ObjectType)(c["ty"])
+    if how == "foreign":
+        return (ObjectType if c["k"] == "ext" else ExtendedObjectType)(c["ty"])
+    return _S(c["ty"]) if how == "strsub" else c["ty"]
+
+
+def ty_token(c):
+    """what the model's enum converter is given: a member of the other enum is not a member, not a value: a text outside the table"""
+    if c.get("ty_as") == "foreign":
+        return ("ObjectType." if c["k"] == "ext" else "ExtendedObjectType.") + c["ty"]
+    return c["ty"] or "."
+
+
 def _build(c):
     from swh.model.swhids import CoreSWHID, ExtendedSWHID, QualifiedSWHID
+    sub = c.get("sub")
+    by = (lambda h: _B(bytes.fromhex(h))) if sub else bytes.fromhex
+    kw = {}
+    if "ns" in c:
+        kw["namespace"] = _S(c["ns"]) if sub else c["ns"]
+    if "ver" in c:
+        kw["scheme_version"] = num_value(c["ver"])
     if c["k"] == "core":
-        return CoreSWHID(object_type=c["ty"], object_id=bytes.fromhex(c["oid"]))
+        return CoreSWHID(object_type=_ty_arg(c), object_id=by(c["oid"]), **kw)
     if c["k"] == "ext":
-        return ExtendedSWHID(object_type=c["ty"], object_id=bytes.fromhex(c["oid"]))
+        return ExtendedSWHID(object_type=_ty_arg(c), object_id=by(c["oid"]), **kw)
 
     def mkcore(x):
-        return None if x is None else CoreSWHID(object_type=x[0], object_id=bytes.fromhex(x[1]))
+        return None if x is None else CoreSWHID(object_type=x[0], object_id=by(x[1]))
     lines = None if c["lines"] is None else (num_value(c["lines"][0]),
                                              None if c["lines"][1] is None else num_value(c["lines"][1]))
-    return QualifiedSWHID(object_type=c["ty"], object_id=bytes.fromhex(c["oid"]),
-                          origin=None if c["origin"] is None else uncps(c["origin"]),
+    origin = None if c["origin"] is None else uncps(c["origin"])
+    return QualifiedSWHID(object_type=_ty_arg(c), object_id=by(c["oid"]),
+                          origin=_S(origin) if sub and origin is not None else origin,
                           visit=mkcore(c["visit"]), anchor=mkcore(c["anchor"]),
-                          path=None if c["path"] is None else bytes.fromhex(c["path"]), lines=lines)
+                          path=None if c["path"] is None else by(c["path"]), lines=lines, **kw)
+
+
+def _build_ill(c):
+    """a constructor call with an argument of a type the annotations exclude"""
+    from swh.model.swhids import CoreSWHID, ExtendedSWHID, QualifiedSWHID
+    cls = {"core": CoreSWHID, "ext": ExtendedSWHID, "q": QualifiedSWHID}[c["cls"]]
+    oid = bytes.fromhex(c["oid"])
+    w = c["what"]
+    core = CoreSWHID(object_type="snp", object_id=oid)
+    kw = {"object_type": "snp", "object_id": oid}
+    if w == "positional":
+        return cls("swh", 1, oid, "snp")
+    kw.update({
+        "oid-str20": {"object_id": c["oid"][:20]}, "oid-str40": {"object_id": c["oid"]}, "oid-bytearray": {"object_id": bytearray(oid)},
+        "oid-memoryview": {"object_id": memoryview(oid)}, "oid-none": {"object_id": None}, "oid-list": {"object_id": list(oid)},
+        "oid-int": {"object_id": int.from_bytes(oid, "big")}, "ty-int": {"object_type": 1}, "ty-none": {"object_type": None},
+        "ty-bytes": {"object_type": b"snp"}, "unknown-kw": {"qualifiers": {}}, "origin-kw": {"origin": "https://e.org"},
+        "lines-kw": {"lines": (1, None)}, "origin-bytes": {"origin": b"https://e.org/"}, "origin-int": {"origin": 7},
+        "origin-list": {"origin": ["a"]}, "path-int": {"path": 7}, "path-memoryview": {"path": memoryview(b"/a")},
+        "path-bytearray": {"path": bytearray(b"/a;b")}, "path-bytearray-pct": {"path": bytearray(b"/a%41")}, "path-list": {"path": [47]},
+        "lines-list": {"lines": [1, 2]}, "lines-1tuple": {"lines": (1,)}, "lines-3tuple": {"lines": (1, 2, 3)},
+        "lines-empty-tuple": {"lines": ()}, "lines-int": {"lines": 5}, "lines-float": {"lines": (1.0, None)},
+        "lines-strs": {"lines": ("1", "2")}, "lines-none-first": {"lines": (None, 1)}, "lines-bytes": {"lines": b"1-2"},
+        "lines-nested": {"lines": ((1, 2), None)},
+        "visit-ext": {"visit": ExtendedSWHID(object_type="snp", object_id=oid)},
+        "visit-q": {"visit": QualifiedSWHID(object_type="snp", object_id=oid)}, "visit-bytes": {"visit": str(core).encode()},
+        "visit-int": {"visit": 0}, "anchor-q": {"anchor": QualifiedSWHID(object_type="snp", object_id=oid)},
+        "anchor-ext": {"anchor": ExtendedSWHID(object_type="snp", object_id=oid)}, "anchor-bytes": {"anchor": str(core).encode()},
+        "anchor-tuple": {"anchor": ("snp", oid)}}[w])
+    return cls(**kw)
+
+
+def impl_ill(c):
+    from swh.model.swhids import CoreSWHID, ExtendedSWHID, QualifiedSWHID
+    b = _attempt(lambda: _build_ill(c))
+    if "error" in b:
+        return {"mkerr": b["error"]}
+    v = b["ok"]
+    res = {"built": True}
+    p = _attempt(lambda: str(v))
+    res["print"] = {"ok": cps(p["ok"])} if "ok" in p and isinstance(p["ok"], str) else {"error": p.get("error", "str() did not return a str")}
+    if "ok" in res["print"]:
+        r = _attempt(lambda: type(v).from_string(p["ok"]))
+        res["eq"] = "ok" in r and r["ok"] == v and _attempt(lambda: hash(r["ok"]) == hash(v)).get("ok") is True
+    return res
 
 
 def _attempt(f):
@@ -359,6 +575,8 @@ def _attempt(f):
 
 def impl(c):
     from swh.model.swhids import CoreSWHID, ExtendedSWHID, QualifiedSWHID
+    if c["k"] == "ill":
+        return impl_ill(c)
     cls = {"core": CoreSWHID, "ext": ExtendedSWHID, "q": QualifiedSWHID}[c["k"]]
     fields = fields_q if c["k"] == "q" else fields_core
     b = _attempt(lambda: _build(c))
@@ -403,12 +621,16 @@ def impl(c):
 
 # ---------------------------------------------------------------- model
 def requests(c):
+    if c["k"] == "ill":
+        return []                     # the model is typed: it has no such argument
+    ns = tok_text(cps(c["ns"])) if "ns" in c else "-"
+    ver = num_decimal(c["ver"]) if "ver" in c else "-"
     if c["k"] in ("core", "ext"):
-        reqs = ["c %s %s %s" % (c["k"], c["ty"] or ".", tok_hex(c["oid"]))]
+        reqs = ["c %s %s %s %s %s" % (c["k"], ns, ver, ty_token(c), tok_hex(c["oid"]))]
     else:
-        reqs = ["q %d %s %s %s %s %s %s %s" % (LIM, c["ty"] or ".", tok_hex(c["oid"]), tok_text(c["origin"]),
-                                                 tok_core(c["visit"]), tok_core(c["anchor"]), tok_hex(c["path"]),
-                                                 tok_lines(c["lines"]))]
+        reqs = ["q %d %s %s %s %s %s %s %s %s %s" % (LIM, ns, ver, ty_token(c), tok_hex(c["oid"]), tok_text(c["origin"]),
+                                                       tok_core(c["visit"]), tok_core(c["anchor"]), tok_hex(c["path"]),
+                                                       tok_lines(c["lines"]))]
     r = impl(c)                       # the recogniser is applied to the implementation's own text
     p = (r.get("print") or {}).get("ok")
     c["_lang"] = p is not None
@@ -418,6 +640,8 @@ def requests(c):
 
 
 def model(c, resp):
+    if c["k"] == "ill":
+        return {}
     has_lang = c.pop("_lang", False)
     r0 = resp[0]
     if r0.startswith("err"):
@@ -468,6 +692,18 @@ def oracle(c, ires, mres):
     """C08 on the implementation: only for values of the property's domain"""
     if "mkerr" in ires:
         return None                                   # not a SWHID value
+    if c["k"] == "ill":
+        # the constructor took an argument of another type and returned an instance: that instance is a SWHID value
+        what = "%s(...) with %s" % ({"core": "CoreSWHID", "ext": "ExtendedSWHID", "q": "QualifiedSWHID"}[c["cls"]], c["what"])
+        p = ires["print"]
+        if "ok" not in p:
+            return what + " returned a value whose str() raised " + p.get("error", "?")
+        text = uncps(p["ok"])
+        if not (GRAMMAR_EXT if c["cls"] == "ext" else GRAMMAR).fullmatch(text):
+            return what + " returned a value whose text is outside the documented grammar: %r" % text[:200]
+        if not ires.get("eq"):
+            return what + " returned a value v with from_string(str(v)) != v: %r" % text[:200]
+        return None
     if negative_lines(c) or origin_has_ws(c):
         return None                                   # outside the stated domain
     p = ires["print"]
@@ -504,6 +740,8 @@ def oracle(c, ires, mres):
 
 
 def compare(c, ires, mres):
+    if c["k"] == "ill":
+        return None            # no model of ill-typed arguments: the oracle alone judges what the constructor returned
     if "model_error" in mres:
         return "model/driver failed: " + str(mres)[:300]
     if origin_has_ws(c):
@@ -559,16 +797,19 @@ COQ_SAMPLE = 1 << 30
 
 
 def coq_cases(cases):
-    """mk_core / mk_ext / mk_q, print_core / print_q, parse_core / parse_ext / parse_q, to_extended / to_qualified and the
+    """mk_core_nv / mk_ext_nv / mk_q_nv (the constructors with namespace / scheme_version left out or given), print_core / print_q, parse_core / parse_ext / parse_q, to_extended / to_qualified and the
     recognisers lang_core / lang_ext / lang_q evaluated by vm_compute inside Coq vs the extracted driver; one checksum per case
     over its driver requests.  The Coq terms are built from the very request lines the driver receives."""
     from . import core
     fam = {"core": [], "ext": [], "q": []}
     for c in cases:
-        fam["q" if c["k"] not in ("core", "ext") else c["k"]].append(c)
+        if c["k"] != "ill":
+            fam["q" if c["k"] not in ("core", "ext") else c["k"]].append(c)
     def spread(l, n):
         return l[::max(1, len(l) // n)][:n] if l else []
-    picked = spread(fam["core"], 6) + spread(fam["ext"], 6) + spread(fam["q"][:900], 20) + spread(fam["q"][900:], 8)
+    shaped = [c for c in cases if c["k"] != "ill" and shape_keys(c)]
+    picked = (spread(fam["core"], 6) + spread(fam["ext"], 6) + spread(fam["q"][:900], 20) + spread(fam["q"][900:], 8)
+              + spread([c for c in shaped if c["k"] != "q"], 6) + spread([c for c in shaped if c["k"] == "q"], 6))
     chosen = []
     for c in picked:
         rqs = requests(c)             # runs the implementation: the recogniser is applied to the implementation's own text
@@ -591,13 +832,16 @@ def coq_cases(cases):
     def lines(s):
         p = s.split(":")
         return "((%s)%%Z, %s)" % (p[0], "None" if len(p) == 1 else "Some (%s)%%Z" % p[1])
+    def optz(s):
+        return "None" if s == "-" else "(Some (%s)%%Z)" % s
     def term(rq):
         w = rq.split(" ")
         if w[0] == "c":
-            return "c_case %s %s %s" % ("true" if w[1] == "ext" else "false", word(w[2]), hexl(w[3]))
+            return "c_case %s %s %s %s %s" % ("true" if w[1] == "ext" else "false", opt(w[2], txt), optz(w[3]), word(w[4]), hexl(w[5]))
         if w[0] == "q":
-            return "q_case %d%%N %s %s %s %s %s %s %s" % (int(w[1]), word(w[2]), hexl(w[3]), opt(w[4], txt), opt(w[5], corel),
-                                                         opt(w[6], corel), opt(w[7], hexl), opt(w[8], lines))
+            return "q_case %d%%N %s %s %s %s %s %s %s %s %s" % (int(w[1]), opt(w[2], txt), optz(w[3]), word(w[4]), hexl(w[5]),
+                                                               opt(w[6], txt), opt(w[7], corel), opt(w[8], corel), opt(w[9], hexl),
+                                                               opt(w[10], lines))
         return "lang_case (%s %s)" % ({"core": "lang_core", "ext": "lang_ext"}.get(w[1], "lang_q"), txt(w[2]))
     src = ("From Coq Require Import List NArith ZArith.\nFrom SWH.lib Require Import Bytes.\nFrom SWH.model Require Import Swhid.\n"
            "Import ListNotations.\n" + core.COQ_CHECKSUM + """
@@ -611,8 +855,8 @@ Definition sl (o : option (Z * option Z)) : list N := match o with
 Definition sq (v : qualified) : list N :=
   q_ty v ++ [362%N] ++ q_oid v ++ ot (q_origin v) ++ oc (q_visit v) ++ oc (q_anchor v) ++ ot (q_path v) ++ sl (q_lines v).
 Definition res {A : Type} (show : A -> list N) (r : result A) : list N := match r with Ok v => 365%N :: show v | Err e => [366%N; en e] end.
-Definition c_case (ext : bool) (ty oid : list N) : list N :=
-  match (if ext then mk_ext else mk_core) ty oid with
+Definition c_case (ext : bool) (ns : option (list N)) (ver : option Z) (ty oid : list N) : list N :=
+  match (if ext then mk_ext_nv else mk_core_nv) ns ver ty oid with
   | Err e => [367%N; en e]
   | Ok c => let p := print_core c in
       p ++ [350%N] ++ res sc ((if ext then parse_ext else parse_core) p) ++
@@ -621,9 +865,9 @@ Definition c_case (ext : bool) (ty oid : list N) : list N :=
        ++ [353%N] ++ res sq (to_qualified c) ++ [354%N]
        ++ match to_qualified c with Ok q => res (fun t : list N => t) (print_q 0%N q) | Err _ => [361%N] end)
   end.
-Definition q_case (lim : N) (ty oid : list N) (origin : option (list N)) (visit anchor : option core) (path : option (list N))
-                  (lines : option (Z * option Z)) : list N :=
-  match mk_q ty oid origin visit anchor path lines with
+Definition q_case (lim : N) (ns : option (list N)) (ver : option Z) (ty oid : list N) (origin : option (list N))
+                  (visit anchor : option core) (path : option (list N)) (lines : option (Z * option Z)) : list N :=
+  match mk_q_nv ns ver ty oid origin visit anchor path lines with
   | Err e => [367%N; en e]
   | Ok v => match print_q lim v with
             | Err e => [368%N; en e]
